@@ -401,6 +401,13 @@ wrapped_interval<Number>::mk_winterval(Number lb, Number ub,
               " does not fit into a wrapint. Returned top wrapped interval");
     return wrapped_interval<Number>::top();
   } else {
+    // If [lb, ub] has 2^width or more integers then, modulo 2^width,
+    // they cover the whole circle: [lb mod 2^width, ub mod 2^width]
+    // would miss most of them.
+    Number max_span(wrapint::get_unsigned_max(width).get_unsigned_bignum());
+    if (ub - lb > max_span) {
+      return wrapped_interval<Number>::top();
+    }
     return wrapped_interval<Number>(wrapint(lb, width), wrapint(ub, width));
   }
 }
